@@ -1,4 +1,3 @@
 package main
 
-func testRun(f []string) string             { return "bad-op" }
-func histRun(c *Ctx, line string, f []string) string { return "bad-op" }
+func testRun(f []string) string { return "bad-op" }
